@@ -193,6 +193,9 @@ def model_specs(
         "pool_size": len(pooltrees),
         "symbol_keyed": symbol_keyed,
         **({"calib_type": calib_type} if calib_type != "float" else {}),
+        # both documented forms of `config=` for both back-ends: default = python.Config object / dict for cpp; swapped =
+        # dict for python / cpp.Config object
+        **({"config_form": "swapped"} if draw(st.sampled_from([False, False, True])) else {}),
     }
 
 
@@ -366,7 +369,10 @@ def py_config(spec, **over):
         import numpy as np
 
         kw["python_modules"] = tuple(python.DEFAULT_MODULES) + ({"verif_sat": lambda v: np.tanh(v) / 2},)
+    want_object = over.pop("_object", False)
     kw.update(over)
+    if spec.get("config_form") == "swapped" and not want_object:
+        return kw  # the documented dict form of the configuration (python: dict, C++: Config object in this class)
     return python.Config(**kw)
 
 
